@@ -7,18 +7,22 @@ EXTENDS ProxyMsgDefs, Json
 
 CONSTANTS ReqSpace, RespSpace
 
-VARIABLES out,    \* the vector, as JSON text
-          kind    \* "req" | "resp" (a second variable also makes TLC print states as conjunctions,
-                  \* which is what the driver's dump parser expects)
+VARIABLES out,    \* the vector, as JSON text ("": not computed yet)
+          kind,   \* "req" | "resp" | "dims"
+          scn     \* the scenario
 
-AllFixed == {"F5", "F6", "F7", "HEAD", "METRIC", "ABORT", "CLONE"}
+AllFixed == {"F5", "F6", "F7", "HEAD", "METRIC", "ABORT", "CLONE", "MULTI"}
 
 PathClass == <<"plain", "esc-unreserved", "esc-space", "esc-slash", "esc-qmark", "esc-hash", "esc-pct",
-               "esc-pct-hex", "esc-ctl", "subdelims", "esc-utf8", "bang", "esc-slash-lc">>
+               "esc-pct-hex", "esc-ctl", "subdelims", "esc-utf8", "bang", "esc-slash-lc",
+               "lead-empty", "only-slashes", "lead-empty-esc", "inner-empty", "trail-empty", "dot-segments">>
+ASSUME Len(PathClass) = Len(Paths)
 QueryClass == <<"none", "plain", "esc-multi">>
 
 ReqVec(s) ==
     [dir |-> "req", s |-> s, pathcls |-> PathClass[s.path], querycls |-> QueryClass[s.query],
+     \* the stratum the driver draws the scenario from: the load-balancing policies, the path / query classes, the rest
+     stratum |-> IF s.lb # "default" THEN "lb" ELSE IF s.path # 1 \/ s.query # 1 THEN "target" ELSE "main",
      path |-> Paths[s.path], query |-> Queries[s.query],
      exp |-> Outcome(Exchange(s, DefaultRespScn, AllFixed))]
 
@@ -50,9 +54,15 @@ RespVec(s) ==
    flight at the same time on one proxy instance, see ProxyMsgPar) *)
 Dims == [dir |-> "dims", ctypes |-> CTypeSeq, par |-> ParDegrees]
 
-Init == \/ kind = "req" /\ \E s \in ReqSpace : out = ToJson(ReqVec(s))
-        \/ kind = "resp" /\ \E s \in RespSpace : out = ToJson(RespVec(s))
-        \/ kind = "dims" /\ out = ToJson(Dims)
-Next == UNCHANGED <<out, kind>>
-Spec == Init /\ [][Next]_<<out, kind>>
+(* the scenarios are the initial states (cheap), the vector of each is computed by a step (TLC computes
+   initial states with one thread, steps with all workers); the driver skips the states without a vector *)
+Init == /\ out = ""
+        /\ \/ kind = "req" /\ scn \in ReqSpace
+           \/ kind = "resp" /\ scn \in RespSpace
+           \/ kind = "dims" /\ scn = [none |-> TRUE]
+Next == /\ out = "" /\ UNCHANGED <<kind, scn>>
+        /\ out' = CASE kind = "req" -> ToJson(ReqVec(scn))
+                    [] kind = "resp" -> ToJson(RespVec(scn))
+                    [] OTHER -> ToJson(Dims)
+Spec == Init /\ [][Next]_<<out, kind, scn>>
 =============================================================================
